@@ -13,7 +13,8 @@ without calculation, settings-on-the-survey-sheet rows, `RE_END_CONTROL`, missin
 Cells use the canonical column names that `dealias_and_group_headers` produces, flattened with
 `::` (`bind::relevant`, `control::jr:count`, `label::en`, …).  Outside the fragment (answered
 `unsupported`): loops, osm, entities `save_to`, `default` on a `calculate` row (needs the
-expression lexer, see `Pyxv.Lexer`), `trigger`, table-list appearance.
+expression lexer, see `Pyxv.Lexer`), table-list appearance, a `parameters` cell (handled by
+`Pyxv.Controls`, which strips it before calling `classify`).
 -/
 namespace Pyxv.Rows
 open Pyxv Pyxv.Form
